@@ -38,6 +38,7 @@ const (
 	vxFailUnmount    = 5
 	vxFailWrite      = 6
 	vxFailStall      = 7 // the peer stops reading (the a-th request's Write blocks until Close) and sends a garbage frame
+	vxFailStallLib   = 8 // the same on a client built by the library's own constructor NewClnt (65535 tags)
 )
 
 const vxH10Msize = 32
@@ -48,7 +49,12 @@ func vxH10Cut(n int, a int, mode int, b int, dotu bool) {
 		// every cut position inside the a-th reply (Rread with two data bytes: 13 bytes)
 		b = vxChoose("cutbyte", 13)
 	}
-	clnt := vxNewClient(nc, vxH10Msize, dotu, 4)
+	ntags := 4
+	if mode == vxFailStallLib {
+		ntags = 0
+		mode = vxFailStall
+	}
+	clnt := vxNewClient(nc, vxH10Msize, dotu, ntags)
 	callers := make([]*vxCaller, n+1)
 	for i := range callers {
 		callers[i] = vxNewCaller(clnt, i, vxOpRead)
